@@ -11,6 +11,7 @@ import (
 	"kcsim/world"
 
 	"github.com/boz/kcache"
+	corev1 "k8s.io/api/core/v1"
 	metav1 "k8s.io/apimachinery/pkg/apis/meta/v1"
 )
 
@@ -34,6 +35,8 @@ type CacheScen struct {
 	// Tree (C02 only): instead of one cache driven directly, a controller with a
 	// tree of subscriptions whose subscribers replay what they receive
 	Tree *Tree `json:"tree,omitempty"`
+	// ValueObjs: objects are uncomparable values of an application type (see mkObj)
+	ValueObjs bool `json:"value_objs,omitempty"`
 }
 
 var cacheKeys = [][2]string{{"n1", "a"}, {"", "a"}, {"n1", "b"}, {"n2", "a"}, {"n-1", "a"}, {"n", "1-a"}} // "" = a cluster-scoped object (nodes have no namespace); the last two collide under a "-" join
@@ -165,7 +168,7 @@ func genCacheBulk(rng *rand.Rand, sc *CacheScen) {
 }
 
 func genCache(g GenCtx) interface{} {
-	sc := &CacheScen{Prop: g.Prop}
+	sc := &CacheScen{Prop: g.Prop, ValueObjs: g.Idx%9 == 4}
 	alpha := sweepAlphabet()
 	if g.Idx%2 == 1 {
 		// sweep mode: the prefix depends on idx / len(alpha) only, the last
@@ -228,13 +231,30 @@ func genCache(g GenCtx) interface{} {
 	return sc
 }
 
+// valueObjs: the objects handed to the cache are VALUES of an application type
+// that embeds the API object and carries a slice - a legitimate metav1.Object
+// that cannot be compared with == (set at the start of every run).
+var valueObjs bool
+
+type notedPod struct {
+	*corev1.Pod
+	notes []string
+}
+
+func mkObj(s world.Spec) metav1.Object {
+	if valueObjs {
+		return notedPod{Pod: world.Build("pod", s).(*corev1.Pod), notes: []string{"seen"}}
+	}
+	return world.BuildMeta("pod", s)
+}
+
 func objsOf(specs []world.Spec) []metav1.Object {
 	if specs == nil {
 		return nil
 	}
 	out := make([]metav1.Object, 0, len(specs))
 	for _, s := range specs {
-		out = append(out, world.BuildMeta("pod", s))
+		out = append(out, mkObj(s))
 	}
 	return out
 }
@@ -345,7 +365,7 @@ func runCacheFlaky(sc *CacheScen) {
 			case "delete":
 				et = kcache.EventTypeDelete
 			}
-			evs, err = c.Update(kcache.NewEvent(et, world.BuildMeta("pod", op.Obj)))
+			evs, err = c.Update(kcache.NewEvent(et, mkObj(op.Obj)))
 		default:
 			continue
 		}
@@ -384,6 +404,10 @@ func runCacheFlaky(sc *CacheScen) {
 
 func runCache(sci interface{}) {
 	sc := sci.(*CacheScen)
+	valueObjs = sc.ValueObjs
+	if valueObjs {
+		detsim.Count("probe:objects-of-an-uncomparable-value-type")
+	}
 	if sc.Tree != nil {
 		runTree(sc.Tree)
 		return
@@ -479,7 +503,7 @@ func runCache(sci interface{}) {
 			case "delete":
 				et = kcache.EventTypeDelete
 			}
-			evs, err = c.Update(kcache.NewEvent(et, world.BuildMeta("pod", op.Obj)))
+			evs, err = c.Update(kcache.NewEvent(et, mkObj(op.Obj)))
 			staleDelete := false
 			if op.Typ == "delete" {
 				if cur, ok := ref.Items[op.Obj.Key()]; ok {
@@ -693,6 +717,19 @@ func init() {
 				sameRefilters(g.Rng, t, 2)
 			} else {
 				passersBy(g.Rng, t, 2)
+			}
+			if g.Rng.Intn(3) == 0 {
+				// relists that have something to delete (the watch loses frames), from a
+				// server whose complete replies carry a continue token nobody asked for
+				t.StrayContinue = true
+				t.PeriodMs = pickInt(g.Rng, 50, 200)
+				t.Faults = map[string]world.Fault{"watch-drop": {Budget: 2 + g.Rng.Intn(3), Denom: 2}}
+				for i := range t.Acts {
+					// (quiet periods were drawn for the period the script had before)
+					if t.Acts[i].Op == "sleep" && t.Acts[i].Ms > 40*t.PeriodMs {
+						t.Acts[i].Ms = 40 * t.PeriodMs
+					}
+				}
 			}
 			return &CacheScen{Prop: g.Prop, Tree: t}
 		}
